@@ -219,6 +219,9 @@ def cmd_check(prop, tier, jobs, only, seed):
         c.known = [k for k in findings if fnmatch.fnmatch(c.id, k.cond_glob)]
     if os.environ.get('VERIF_NO_TWINS') != '1':
         conds = conds + [engine.make_twin(c) for c in conds if c.direct is None and not c.twin]
+    if os.environ.get('VERIF_TWINS_ONLY') == '1':
+        # smoke run: one path per condition (its reachability twin) - every harness of the tier must at least run to its end once
+        conds = [c for c in conds if c.twin]
     print(f"  {sum(1 for c in conds if not c.twin)} conditions (+{sum(1 for c in conds if c.twin)} reachability twins), {jobs} workers")
     results = engine.run_pool(conds, seed, jobs)
 
@@ -354,7 +357,8 @@ def cmd_check(prop, tier, jobs, only, seed):
         'violations': len(violations),
     }
     # a run restricted with --only covers part of the property: its evidence must not replace the full file
-    evdir = os.path.join(OUT, 'evidence') if not only else os.path.join(OUT, '.work', 'partial-evidence')
+    partial = bool(only) or os.environ.get('VERIF_TWINS_ONLY') == '1'
+    evdir = os.path.join(OUT, 'evidence') if not partial else os.path.join(OUT, '.work', 'partial-evidence')
     os.makedirs(evdir, exist_ok=True)
     with open(os.path.join(evdir, f'{prop}.json'), 'w') as fh:
         json.dump(ev, fh, indent=1)
